@@ -773,6 +773,7 @@ class LoopRig:
 				return 'ok'
 
 		self.stub = Stub()
+		self.last_exc: BaseException | None = None
 		_ = rig
 
 	def run_script(self, script: list[tuple[str, Any]]) -> str:
@@ -808,6 +809,7 @@ class LoopRig:
 			status = 'running'
 		except BaseException as e:  # noqa: BLE001
 			status = f'died {display(type(e))}'
+			self.last_exc = e
 		finally:
 			tr.tty = old  # type: ignore[assignment]
 		return f'{status} {consumed[0]}'
@@ -1138,6 +1140,7 @@ def fuzz_inputs(ctx: Ctx) -> list[tuple[str, str, str | bytes]]:
 	for m in both:
 		for s in seeds:
 			out.append(('seed', m, s))
+	seeds = seeds + gen.SELF_IMPORT_PROGRAMS  # mutation bases of the random part
 	for i, s in enumerate(chunks):
 		out.append(('seed-chunk', both[i % 2], s))
 	for s in gen.ILL_TYPED_TEMPLATES:
@@ -1148,6 +1151,27 @@ def fuzz_inputs(ctx: Ctx) -> list[tuple[str, str, str | bytes]]:
 	for md, s in DEEP_NESTING:
 		for m in (both if md == 'both' else (md,)):
 			out.append(('deep-nesting', m, s))
+	# histories: a program that imports from its own module stays registered; the next input of the session unloads it
+	for m in both:
+		for s in gen.SELF_IMPORT_PROGRAMS:
+			out.append(('self-import', m, s))
+			out.append(('after-self-import', m, gen.VALID_PROGRAMS[0]))
+	# ends of file (the on-disk text is parsed as written; an in-memory text always gets a final line feed): programs whose error
+	# lands on a node that ends at EOF (class / function / block), with every tail
+	eof_bases = [
+		'class A:\n\tdef f(self) -> int:\n\t\treturn self.y\n',
+		'class A:\n\tx: int = 1\n\tdef f(self) -> str:\n\t\treturn self.x.y\n',
+		'def f() -> int:\n\tif True:\n\t\treturn g()\n',
+		'def f(a: Unknown) -> None:\n\tfor i in range(1):\n\t\tpass\n',
+		'class A(Unknown):\n\tclass B:\n\t\tdef m(self) -> None:\n\t\t\tpass\n',
+		gen.VALID_PROGRAMS[1], gen.VALID_PROGRAMS[2], gen.VALID_PROGRAMS[5],
+	]
+	for b in eof_bases:
+		for tail in gen.EOF_TAILS:
+			out.append(('eof-tail', 'on-disk', gen.with_tail(b, tail)))
+	for i, t in enumerate(gen.ILL_TYPED_TEMPLATES):
+		if t.strip():
+			out.append(('eof-tail', 'on-disk', gen.with_tail(t, gen.EOF_TAILS[1 + i % 7])))
 	if ctx.thorough:
 		for name, s in gen.large_sources():
 			out.append(('seed-large', 'in-memory', s))
@@ -1175,6 +1199,10 @@ def fuzz_inputs(ctx: Ctx) -> list[tuple[str, str, str | bytes]]:
 				out.append(('generated', m, g))
 			else:
 				out.append(('generated-mutation', m, ''.join(gen.mutate_tokens(rng, gen.tokens_of(g)))))
+		if m == 'on-disk' and rng.random() < 0.15:
+			k, mm, d = out[-1]
+			if isinstance(d, str):
+				out[-1] = (f'{k}+eof-tail', mm, gen.with_tail(d, rng.choice(gen.EOF_TAILS)))
 	return out
 
 
@@ -1187,11 +1215,12 @@ def search_fuzz(ctx: Ctx) -> SearchResult:
 	for p in pipes.values():
 		p.post = syntax_oracle
 	hist: Counter[str] = Counter()
-	first: dict[str, tuple[str, str, str | bytes, pl.Outcome]] = {}
+	first: dict[str, tuple[str, str, str | bytes, pl.Outcome, str | bytes | None]] = {}
 	seen: set[int] = set()
 	quoted = 0
 	t0 = time.time()
 	budget_s = ctx.scale(240, 3000)  # safety net only: the plan is sized to finish well inside it (a cut would make the key set machine dependent)
+	prev: dict[str, str | bytes | None] = {'in-memory': None, 'on-disk': None}
 	for kind, mode, data in inputs:
 		if time.time() - t0 > budget_s:
 			ctx.notes.append(f'fuzz stopped by the time budget after {res.cases} of {len(inputs)} inputs')
@@ -1211,25 +1240,33 @@ def search_fuzz(ctx: Ctx) -> SearchResult:
 			hist[f'key:{k}'] += 1
 			cur = first.get(k)
 			if cur is None or len(_as_text(data)) < len(_as_text(cur[2])):
-				first[k] = (kind, mode, data, o)
+				first[k] = (kind, mode, data, o, prev[mode])
+		prev[mode] = data
 		if len(res.samples) < 3 and kind in ('token-mutation', 'ill-typed'):
 			res.samples.append({'kind': kind, 'mode': mode, 'source': _as_text(data)[:120], 'outcome': label})
 	hist['rendered-with-quotation'] = quoted
 	# confirm each key on a fresh App (history-free), minimise, report
 	for k in sorted(first):
-		kind, mode, data, o = first[k]
+		kind, mode, data, o, before = first[k]
 		# corpus witnesses are already minimal, deep-nesting inputs are what they are (and each run of them costs seconds)
 		small = data if kind in ('corpus', 'witness-F3', 'deep-nesting') else minimise(pipes[mode], data, k)
+		history: list[str | bytes] = []
 		conf = pl.fresh_outcome(mode, base, small, post=syntax_oracle)
 		if k not in conf.keys():
 			conf = pl.fresh_outcome(mode, base, data, post=syntax_oracle)
 			small = data
+		if k not in conf.keys() and before is not None:
+			# a history effect: the property quantifies over sessions too (interactive mode) — replay the previous input of the session first
+			conf = pl.fresh_outcome(mode, base, data, prefix=[before], post=syntax_oracle)
+			history = [before]
 		if k not in conf.keys():
-			ctx.notes.append(f'escape {k} seen during the run did not reproduce on a fresh App (history dependent); input kept in the evidence notes only: {_as_text(data)[:200]!r}')
+			ctx.notes.append(f'escape {k} seen during the run did not reproduce on a fresh App, alone or after the previous input of the session; input kept in the evidence notes only: {_as_text(data)[:200]!r}')
 			hist[f'unconfirmed:{k}'] += 1
 			continue
 		what = f'{conf.cls or "render"}: {(conf.message or conf.render_message)[:100]} — input kind {kind}, {mode}; minimal input {_as_text(small)[:160]!r}'
-		res.findings.append(Finding(key=k, what=what, replay=_replay_payload(mode, small, conf)))
+		if history:
+			what += f' after the session input {_as_text(history[0])[:120]!r}'
+		res.findings.append(Finding(key=k, what=what, replay={**_replay_payload(mode, small, conf), 'history': [_as_text(h) for h in history]}))
 		ctx.notes.append(f'finding key={k} | {what}')
 	for p in pipes.values():
 		p.close()
@@ -1359,6 +1396,67 @@ def search_laws(ctx: Ctx) -> SearchResult:
 
 
 # ---------------------------------------------------------------------------------------------
+# search: sessions of the real interactive loop (the property's history quantifier)
+
+HISTORY_POOL_EXTRA = ['x = y', 'a = = 1', 'def f(:', 'a = $', 'if a:\n        x = 1\n    y = 2', 'from nowhere import X', 'a, b = 1', 'x = x', 'x = lambda a, b: a',
+	'class A([int]):\n\tpass', 'def f(self) -> None:\n\tpass', 'from typing import Generic\nclass T(Generic[T]):\n\tdef g(self) -> T: ...', 'b = 2', 'pass']
+
+
+def search_loop_histories(ctx: Ctx) -> SearchResult:
+	"""Every session of the real Interactive.run must consume all of its inputs: each input ends ok or in an Errors.Error that is
+	printed, whatever was submitted before (modules of earlier inputs stay registered and are unloaded by the next one)."""
+	res = SearchResult('sessions of the real Interactive.run (real pipeline, scripted tty): every history of inputs is consumed completely')
+	rng = ctx.sub_rng('histories')
+	selfs = [s.replace('__SELF__', '__main__').rstrip('\n') for s in gen.SELF_IMPORT_PROGRAMS]
+	pool = [s.rstrip('\n') for s in gen.VALID_PROGRAMS[:8]] + HISTORY_POOL_EXTRA + [t.rstrip('\n') for t in gen.ILL_TYPED_TEMPLATES if t.strip()][:60]
+	histories: list[list[str]] = []
+	for s in selfs:  # every self-import followed by something, and twice in a row
+		histories.append([s, 'b = 2'])
+		histories.append([s, s, pool[0]])
+	for _ in range(ctx.scale(40, 400)):
+		n = rng.randint(2, 6)
+		h = [rng.choice(selfs) if rng.random() < 0.25 else rng.choice(pool) for _ in range(n)]
+		if rng.random() < 0.3:
+			k = rng.randrange(n)
+			h[k] = ''.join(gen.mutate_tokens(rng, gen.tokens_of(h[k]))).strip('\n') or 'pass'
+		histories.append(h)
+	rig = LoopRig(ctx)
+	hist: Counter[str] = Counter()
+	seen_keys: set[str] = set()
+	for h in histories:
+		res.cases += 1
+		# blank lines end an input at the real prompt: a session input never contains one
+		h = ['\n'.join(ln for ln in x.split('\n') if ln.strip()) or 'pass' for x in h]
+		out = rig.run_script([('src', x) for x in h])
+		hist[out.split(' ')[0]] += 1
+		if out == f'running {len(h)}':
+			continue
+		e = rig.last_exc
+		key = 'loop:' + (pl.escape_key(e, 'in-memory') if e is not None else out)
+		died_at = int(out.rsplit(' ', 1)[1])
+		rig = LoopRig(ctx)  # the session is over; start a new one
+		if key in seen_keys:
+			continue
+		seen_keys.add(key)
+		# shortest suffix of the consumed inputs that still ends a fresh session the same way
+		consumed = h[:died_at]
+		minimal = consumed
+		for start in range(len(consumed) - 1, -1, -1):
+			probe = LoopRig(ctx)
+			o2 = probe.run_script([('src', x) for x in consumed[start:]])
+			if o2.startswith('died') and probe.last_exc is not None and 'loop:' + pl.escape_key(probe.last_exc, 'in-memory') == key:
+				minimal = consumed[start:]
+				break
+		res.findings.append(Finding(key=key, what=f'Interactive.run ended with {out.split(" ")[1]} at input {died_at} of the session {minimal!r}',
+			replay={'kind': 'session', 'session': minimal, 'status': out, 'tranp_frames': pl.tranp_frames(e)[-6:] if e is not None else []}))
+		ctx.notes.append(f'finding key={key} | session {minimal!r} → {out}')
+	res.distinct = len({tuple(h) for h in histories})
+	res.histogram = dict(hist)
+	res.note = f'{len(histories)} sessions of 2..6 inputs: valid programs, ill-typed templates, unparsable texts, programs importing from their own module (one-module import cycle), token mutations'
+	return res
+
+
+# ---------------------------------------------------------------------------------------------
 
 STATEMENTS = {
 	'proc': 'for every list of nodes and every handler behaviour (return / raise any class — named, user-defined, multiply inheriting — with any arguments): exec ends ok, or with a member of Errors.Error, or with the handler\'s own exception when that is not an Exception; hyp.: node properties do not raise, Errors.Error subclasses accept one-argument construction',
@@ -1395,7 +1493,7 @@ def run(ctx: Ctx) -> int:
 		with ctx.timed('correspondence'):
 			streams = [stream_hierarchy(ctx), stream_proc(ctx), stream_parse(ctx), stream_load(ctx), stream_loop(ctx), stream_render(ctx)]
 	with ctx.timed('search'):
-		searches = [search_f3_replay(ctx), search_laws(ctx), search_fuzz(ctx)]
+		searches = [search_f3_replay(ctx), search_laws(ctx), search_loop_histories(ctx), search_fuzz(ctx)]
 	wrapped = bool(ctx.generated_tables and ctx.generated_tables[0].get('mem_branch_wrapped'))
 	ctx.notes.append('in-memory parser branch on this tree: ' + ('wrapped (parse_mem_fixed applies)' if wrapped else 'NOT wrapped (parse_mem_counterexample applies; F3)'))
 	return common.finish(ctx, proof, streams, searches,
@@ -1419,11 +1517,21 @@ def replay(ctx: Ctx, path: str) -> int:
 	with open(path, encoding='utf-8') as f:
 		rec = json.load(f)
 	print(json.dumps({k: v for k, v in rec.items() if k != 'input'}, indent=1)[:2000])
+	if rec.get('kind') == 'failing-input' and rec['input'].get('kind') == 'session':
+		rig = LoopRig(ctx)
+		out = rig.run_script([('src', x) for x in rec['input']['session']])
+		print(f"replay: session {rec['input']['session']!r} -> {out}")
+		known = {k['key'] for k in common.load_known(PROP) if k.get('status') == 'known'}
+		bad = not out.startswith('running') and rec.get('key') not in known
+		if bad:
+			print(f'VIOLATION property={PROP} replay={os.path.relpath(path, common.VERIF)}')
+		ctx.cleanup()
+		return 1 if bad else 0
 	if rec.get('kind') == 'failing-input':
 		inp = rec['input']
 		data: str | bytes = bytes.fromhex(inp['source_hex']) if inp.get('source_hex') else inp['source']
 		helper = pl.Pipeline('in-memory', ctx.tmpdir())
-		o = pl.fresh_outcome(inp['mode'], ctx.tmpdir(), data, post=make_syntax_oracle(helper))
+		o = pl.fresh_outcome(inp['mode'], ctx.tmpdir(), data, prefix=list(inp.get('history') or []), post=make_syntax_oracle(helper))
 		helper.close()
 		print(f"replay: mode={inp['mode']} outcome={o.kind} class={o.cls} keys={o.keys()} render={o.render}")
 		print(f'source: {_as_text(data)!r}')
